@@ -208,7 +208,10 @@ def amp_for(k: str, s: F, m1: F, m2: F) -> float:
     thr = (m1 + m2) ** 2
     x = float(abs(s) / (m1 * m2))
     if k == "PhaseSpaceFactorSWave":
-        return c + (1.0 + x) ** 2 + 4.0 / math.sqrt(x)
+        # unequal masses, small |s|: the two O(1/s) terms (m1^2-m2^2) log(m1/m2)/s and the q/sqrt(s) log
+        # term cancel to an O(1) result
+        small_s = float(abs(m1**2 - m2**2) / abs(s)) * abs(math.log(float(m1 / m2))) if m1 != m2 else 0.0
+        return c + (1.0 + x) ** 2 + 4.0 / math.sqrt(x) + 4.0 * small_s
     if k == "EqualMassPhaseSpaceFactor":
         return c + 4.0 * float(abs(s) / thr) + 4.0 * math.sqrt(float(thr / abs(s)))
     return c
@@ -338,6 +341,36 @@ def check_case(case: dict, deep: bool):
             for k, v in (("EqualMassPhaseSpaceFactor", e), ("PhaseSpaceFactorSWave", w)):
                 if not (abs(v) <= 1e-7):  # nan or a jump: contradicts continuity
                     fails.append((f"threshold_value:{k}", f"{k} at exactly s=4m^2 gives {v} (limit is 0) at {case}"))
+
+    # real input dtype (the way data normally arrives): Python float, numpy.float64 scalar, float64
+    # array.  Wherever the exact model is defined and NumPy's real sqrt is not asked for the root of
+    # a negative number by the formula AS STATED (PhaseSpaceFactor: q^2 >= 0 and s > 0; Complex and
+    # SWave: s > 0; q2, Abs, EqualMass: every s != 0) the result must be finite and equal to the
+    # complex-dtype value; nan/inf there is a failure, not "undefined".
+    if s != 0:
+        q2_exact = oracle_q2(s, m1, m2)
+        real_ok = {
+            "q2": True, "PhaseSpaceFactorAbs": True, "EqualMassPhaseSpaceFactor": True,
+            "PhaseSpaceFactor": s > 0 and q2_exact >= 0,
+            "PhaseSpaceFactorComplex": s > 0, "PhaseSpaceFactorSWave": s > 0,
+        }
+        for k in FUN:
+            ref = val[k]
+            if not real_ok[k] or not (math.isfinite(ref.real) and math.isfinite(ref.imag)):
+                continue
+            tk = max(tol, 64 * EPS * amp_for(k, s, m1, m2))
+            if tk >= MEANINGLESS:
+                continue
+            for kind, arg in (("float", sf), ("np.float64", np.float64(sf)), ("float64 array", np.array([sf]))):
+                nev += 1
+                with np.errstate(all="ignore"):
+                    try:
+                        v = complex(np.asarray(FUN[k](arg, m1f, m2f)).reshape(-1)[0])
+                    except Exception as exc:  # noqa: BLE001
+                        fails.append((f"real_dtype_raises:{k}:{reg}", f"{k} with {kind} s raised {exc!r}; complex dtype gives {ref} at {case}"))
+                        continue
+                if not close(v, ref, tk, 64 * EPS):
+                    fails.append((f"real_dtype:{k}:{reg}", f"{k} with {kind} s gives {v}, with complex dtype {ref} at {case}"))
 
     # pure-Python backend, float / numpy.float64 / int arguments
     if s != 0:
